@@ -61,6 +61,14 @@ def ops():
     o['delete_graph'] = (['gid'], lambda c, v: G(c, v).delete_graph())
     o['get_all_nodes_by_class'] = (['gid'], lambda c, v: G(c, v).get_all_nodes_by_class(label='NetworkNode'))
     o['get_all_nodes_by_class_and_type'] = (['gid', 'ntype'], lambda c, v: G(c, v).get_all_nodes_by_class_and_type(label='NetworkNode', ntype=v['ntype']))
+    # the class label is an identifier the text may depend on - but the text must be well-formed for EVERY class of the model
+    for cls_ in ('NetworkNode', 'Component', 'NetworkService', 'ConnectionPoint', 'Link', 'CompositeNode', 'CompositeLink', 'MeasurementPoint'):
+        if cls_ != 'NetworkNode':
+            o[f'get_all_nodes_by_class/{cls_}'] = (['gid'], (lambda k: lambda c, v: G(c, v).get_all_nodes_by_class(label=k))(cls_))
+            o[f'get_all_nodes_by_class_and_type/{cls_}'] = (['gid', 'ntype'], (lambda k: lambda c, v: G(c, v).get_all_nodes_by_class_and_type(label=k, ntype=v['ntype']))(cls_))
+            o[f'node_exists/{cls_}'] = (['gid', 'node'], (lambda k: lambda c, v: G(c, v).node_exists(node_id=v['node'], label=k))(cls_))
+            o[f'check_node_unique/{cls_}'] = (['gid', 'val'], (lambda k: lambda c, v: G(c, v).check_node_unique(label=k, name=v['val']))(cls_))
+            o[f'get_first_neighbor/{cls_}'] = (['gid', 'node'], (lambda k: lambda c, v: G(c, v).get_first_neighbor(node_id=v['node'], rel='connects', node_label=k))(cls_))
     o['list_all_node_ids'] = (['gid'], lambda c, v: G(c, v).list_all_node_ids())
     o['get_node_properties'] = (['gid', 'node'], lambda c, v: G(c, v).get_node_properties(node_id=v['node']))
     o['get_node_json_property_as_object'] = (['gid', 'node'], lambda c, v: G(c, v).get_node_json_property_as_object(node_id=v['node'], prop_name='Labels'))
@@ -280,6 +288,8 @@ def eval_after(case):
         return {'v': [('harness/alone-failed', f'{op_b}: {alone[1]}')], 'nt': None, 'out': 'alone-failed'}
     npairs = 0
     for op_a in OPS:
+        if '/' in op_a and not op_a.endswith('/own-nodes'):
+            continue          # per-class variants of a listed operation
         vals_a = {p: ('n1' if p == '@node' else f'{p}-id') for p in list(OPS[op_a][0]) + ['@node']}
 
         def both(op_a=op_a, vals_a=vals_a):
@@ -310,7 +320,7 @@ def run(report):
                            'deviation - none, empty, or an injected driver fault - of one call under the default answer); every recorded (statement, parameters) pair is judged; '
                            'distinct = operations with at least one recorded statement',
                       space=f'{len(OPS)} operations of Neo4jPropertyGraph, Neo4jGraphImporter, Neo4jASM, Neo4jADMGraph, Neo4jCBMGraph')
-    explore_cases(report, 'after-another-operation', eval_after, [(op,) for op in OPS], chunk=1,
+    explore_cases(report, 'after-another-operation', eval_after, [(op,) for op in OPS if '/' not in op or op.endswith('/own-nodes')], chunk=1,
                   rule='every ORDERED PAIR of backend operations, each pair in a process of its own: the second operation must hand the '
                        'driver the statements it hands over when called first, and they must be well-formed')
     report.assumptions += ['well-formedness is judged lexically (no Cypher parser / server in the sandbox): balanced brackets and quotes, no '
